@@ -45,6 +45,8 @@ pub fn check_kerning(rep: &mut CaseReport, f: &SynthFont, bytes: &[u8]) {
     if single_master_pair { rep.class("pair-in-one-master-only"); }
     if f.sources[0].kerning.is_none() { rep.class("default-master-without-kerning"); }
     rep.class(format!("kerning-masters={}", masters.len().min(5)));
+    // regions of the kerning variation model: one per non-default kerning location (the default master is always a location)
+    let n_regions = masters.iter().filter(|si| **si != 0).count();
     for script in ["DFLT", "latn"] {
         for si in &masters {
             let k = f.sources[*si].kerning.as_ref().unwrap();
@@ -54,10 +56,10 @@ pub fn check_kerning(rep: &mut CaseReport, f: &SynthFont, bytes: &[u8]) {
                 let (Some(&ga), Some(&gb)) = (gids.get(&a.name), gids.get(&b.name)) else { continue };
                 let want = ot_round(ufo_kern_lookup(k, &a.name, &b.name));
                 rep.evals += 1;
-                layout.ssum.set(0.0);
+                layout.reset_bounds();
                 let pos = match layout.gpos_apply(&lookups, &[ga, gb], &coords) { Ok(p) => p, Err(e) => { rep.fail("gpos-evaluation-failed", format!("{} {}: {e}", a.name, b.name)); return; } };
                 let got = pos[0].x_adv;
-                let tol = if *si == 0 { 0.0 } else { 0.5 * layout.ssum.get() } + 1e-6;
+                let tol = if *si == 0 { 0.0 } else { layout.rounding_bound(n_regions) } + 1e-6;
                 if (got - want).abs() > tol {
                     rep.fail(if *si == 0 { "kern-value-differs-at-default-master" } else { "kern-value-differs-at-master" },
                         format!("pair ({}, {}) at master {si} {:?} script {script}: font applies {got:.3}, source kerning says {want} (tolerance {tol:.3}); master kerning: groups {:?} pairs {:?}", a.name, b.name, coords, k.groups, k.pairs));
@@ -87,4 +89,4 @@ pub fn parts() -> Vec<Part> {
     vec![Part { name: "kerning", genome_len: 2200, cases_quick: 1500, cases_thorough: 20000, threads: 12, max_shrink_iters: 300, check: Box::new(check), remote: None }]
 }
 pub const RULE: &str = "genome -> SynthFont with 1-3 axes, 3-10 Latin / common-script glyphs (some non-export), per full master an optional kerning.plist + groups.plist: a base partition into up to 3 kern1 and 3 kern2 groups perturbed per master (glyph moved / ungrouped / newly grouped, group names optionally renamed per master), 1-9 base pairs of all four kinds with per-master jitter, pairs dropped per master, zero and .5 values, masters without kerning (including the default). For every kerning master x every ordered pair of exported glyphs x {DFLT, latn}: sum over the kern feature's lookups (own PairPos format 1/2 interpreter, first matching subtable per lookup, class-0 shadowing, GDEF variation deltas) vs the UFO lookup algorithm on that master's own kerning/groups, OpenType-rounded. non-trivial = >= 2 kerning masters with different group partitions or a pair present in exactly one kerning master";
-pub const ASSUMPTIONS: &[&str] = &["one script (Latin + common), left to right, no mark glyphs among the kerned glyphs: fontc's script / direction / mark splitting then moves no pair out of the kern feature", "tolerance at a non-default master: 0.5 x sum of active region scalars (each delta is rounded once); exact at the default master", "masters with an empty kerning.plist are not kerning masters (fontc interpolates across them; the statement quantifies over masters that define kerning)"];
+pub const ASSUMPTIONS: &[&str] = &["one script (Latin + common), left to right, no mark glyphs among the kerned glyphs: fontc's script / direction / mark splitting then moves no pair out of the kern feature", "tolerance at a non-default master: 0.5 x (sum of active region scalars + number of model regions optimised out of the store because their delta rounded to 0): each delta is rounded once; exact at the default master", "masters with an empty kerning.plist are not kerning masters (fontc interpolates across them; the statement quantifies over masters that define kerning)"];
